@@ -2,7 +2,7 @@
 
 // Accessors for the rules harness (property C08).  Unexported names touched:
 // extractValueFromSpan, conditionMatchesValue, ruleMatchesTrace, ruleMatchesSpanInTrace,
-// RulesBasedSampler.samplers.
+// RulesBasedSampler.samplers (only to delete an entry).
 package sample
 
 import (
@@ -28,12 +28,6 @@ func VerifRulesMatchTrace(t *types.Trace, r *config.RulesBasedSamplerRule, neste
 
 func VerifRulesMatchSpan(t *types.Trace, r *config.RulesBasedSamplerRule, nested bool) bool {
 	return ruleMatchesSpanInTrace(t, r, nested)
-}
-
-// VerifRulesDownstream returns the downstream sampler Start() registered for the rule.
-func VerifRulesDownstream(s *RulesBasedSampler, r *config.RulesBasedSamplerRule) (Sampler, bool) {
-	d, ok := s.samplers[r.String()]
-	return d, ok
 }
 
 // VerifRulesForgetDownstream removes the rule's downstream sampler from the table, which is the
